@@ -73,3 +73,36 @@ def w_F21(gi):
 
 
 WITNESS.update({"F21": w_F21})
+
+
+def w_F34(gi):
+    """S <- l:B .* ; A <- B '+' / 'n' ; B <- A '*' / '('   entered through B, which is not pigeon's leader (A sorts first)"""
+    g = Gram(gi)
+    g.tags.add("lr")
+    NN, PLUS, STAR_, LP = 110, 43, 42, 40
+    s_body = g.action(g.seq([g.label(g.ref(3)), g.un("star", g.any())]))
+    a_body = g.choice([g.action(g.seq([g.label(g.ref(3)), g.lit([PLUS])])), g.action(g.lit([NN]))])
+    b_body = g.choice([g.action(g.seq([g.label(g.ref(2)), g.lit([STAR_])])), g.action(g.lit([LP]))])
+    g.rules = [s_body, a_body, b_body]
+    g.lr = [0, 0, 1]            # the meaning: B is the rule that iterates (it is entered first); A is evaluated inside it
+    g.disp = ["", "", ""]
+    g.compute_args()
+    return g, [[LP, PLUS, STAR_, PLUS], [LP, PLUS, STAR_, PLUS, STAR_, PLUS]], {}, ("val", "end", "ok", "event-missing", "event-notallowed", "nerrs", "store")
+
+
+def w_F35(gi):
+    """S <- (l:E 'x' / l:E '*') ; E <- l:E '+' T #{x++} / T #{x++} ; T <- 'n'   on n+n*: the second E is served from the memo table"""
+    g = Gram(gi)
+    g.tags.add("lr")
+    g.tags.add("state")
+    NN, PLUS, STAR_, X = 110, 43, 42, 120
+    s_body = g.action(g.choice([g.seq([g.label(g.ref(2)), g.lit([X])]), g.seq([g.label(g.ref(2)), g.lit([STAR_])])]))
+    e_body = g.choice([g.seq([g.label(g.ref(2)), g.lit([PLUS]), g.ref(3), g.state("inc", "x", 1)]), g.seq([g.ref(3), g.state("inc", "x", 1)])])
+    g.rules = [s_body, e_body, g.lit([NN])]
+    g.lr = [0, 1, 0]
+    g.disp = ["", "", ""]
+    g.compute_args()
+    return g, [[NN, PLUS, NN, STAR_]], {}, ("store", "gstore", "event-missing", "nerrs", "err", "val")
+
+
+WITNESS.update({"F34": w_F34, "F35": w_F35})
